@@ -24,16 +24,24 @@ type c13cfg struct {
 	attempt []string // per loss: ok | transient (close after features once, then ok) | permanent (auth failure)
 	stop    bool     // Stop at the end
 	slowPost bool    // the PostConnect callback takes 5 s (e.g. it waits for a roster answer)
+	stopWhileRefused bool // after the last loss the server refuses every dial; Stop is called during the retry loop
 }
 
 func (c c13cfg) name() string {
-	return fmt.Sprintf("sm=%v/faults=%s/refused=%v/attempt=%s/stop=%v/slowpost=%v", c.sm, strings.Join(c.faults, ","), c.refused, strings.Join(c.attempt, ","), c.stop, c.slowPost)
+	return fmt.Sprintf("sm=%v/faults=%s/refused=%v/attempt=%s/stop=%v/slowpost=%v", c.sm, strings.Join(c.faults, ","), c.refused, strings.Join(c.attempt, ","), c.stop, c.slowPost) + map[bool]string{true: "/stop-while-refused", false: ""}[c.stopWhileRefused]
 }
 
 func c13body(cfg c13cfg) func() {
 	return func() {
 		vrt.Quiet(true)
+		jitterChoices := 0
 		vrt.RandHook = func(n int) int {
+			// both extremes of the jitter are explored for the first few waits of an execution; after
+			// that the longest wait is taken (an endless retry loop must not make the choice tree endless)
+			jitterChoices++
+			if jitterChoices > 4 {
+				return n - 1
+			}
 			if vrt.ChooseFree("jitter", 2) == 1 {
 				return n - 1
 			}
@@ -66,6 +74,8 @@ func c13body(cfg c13cfg) func() {
 			plan := "ok"
 			if dials < len(dialPlan) {
 				plan = dialPlan[dials]
+			} else if cfg.stopWhileRefused {
+				plan = "refuse"
 			}
 			dials++
 			dialTimes = append(dialTimes, vrt.VNow())
@@ -209,6 +219,17 @@ func c13body(cfg c13cfg) func() {
 			vrt.Sleep(30 * time.Minute) // horizon: back-off waits are far below
 			vrt.WaitIdle()
 			newSess := sessions()[nSess:]
+			// consecutive attempts of one retry loop are at most min(cap, 20ms * 2^i) apart (full jitter below that)
+			for i := nDial; i+1 < len(dialTimes); i++ {
+				gap := dialTimes[i+1] - dialTimes[i]
+				limit := time.Duration(20<<uint(i-nDial)) * time.Millisecond
+				if limit > 3*time.Minute {
+					limit = 3 * time.Minute
+				}
+				if gap > limit+31*time.Second { // + up to two close-handshake time-outs (15 s each) spent inside a failed attempt
+					vrt.Fail("C13|retry-later-than-backoff|"+clause, "%s: attempt %d after the loss came %s after attempt %d, the back-off allows at most %s", desc, i-nDial+1, gap, i-nDial, limit)
+				}
+			}
 			vrt.Log("loss %d (%s): new sessions %v dials %d postconnects %d", li, fault, newSess, dials-nDial, postConnects-nPC)
 			if fault == "stream-error-conflict" {
 				// kicked by another session: reconnecting is explicitly not wanted; nothing is asserted beyond no crash
@@ -257,6 +278,20 @@ func c13body(cfg c13cfg) func() {
 				break
 			}
 		}
+		if cfg.stopWhileRefused {
+			// one more loss; from now on every dial is refused; the manager is retrying when Stop is called
+			conns[cur].close()
+			vrt.Sleep(10 * time.Second)
+			vrt.WaitIdle()
+			before := dials
+			mgr.Stop()
+			vrt.Sleep(20 * time.Minute)
+			vrt.WaitIdle()
+			if !runReturned {
+				vrt.Fail("C13|run-does-not-return-after-stop|while-retrying", "%s: Stop was called while the manager was retrying against a server that refuses connections; Run has not returned 20 min later (%d further dials)", desc, dials-before)
+			}
+			return
+		}
 		if cfg.stop {
 			mgr.Stop()
 			vrt.Sleep(time.Minute)
@@ -302,6 +337,8 @@ func TestVerifC13(t *testing.T) {
 			}
 		}
 		add(c13cfg{sm: sm, stop: true})
+		add(c13cfg{sm: sm, stopWhileRefused: true})
+		add(c13cfg{sm: sm, faults: []string{"drop"}, refused: []int{1}, attempt: []string{"ok"}, stopWhileRefused: true})
 		add(c13cfg{sm: sm, faults: []string{"drop-then-drop-during-postconnect"}, refused: []int{0}, attempt: []string{"ok"}, stop: true, slowPost: true})
 		add(c13cfg{sm: sm, faults: []string{"drop", "drop-then-drop-during-postconnect"}, refused: []int{0, 0}, attempt: []string{"ok", "ok"}, stop: true, slowPost: true})
 	}
